@@ -206,7 +206,7 @@ func (w *worker) close() {
 	_ = os.Remove(w.inflight())
 }
 
-const childWatchdog = 180 * time.Second
+const childWatchdog = 30 * time.Second
 
 // run executes one script in the child. died != nil means the child ended (or hung) while
 // the script was in flight; err != nil means the harness itself is broken.
